@@ -1235,6 +1235,11 @@ def misc_max_step(ex, st, args, kwargs, n):
                           'unvalidated'],
                       extra={'prop': {'conelp': 'C01', 'coneqp': 'C03'}.get(
                           ex.fname, 'C01')})
+            # the value of this test decides whether the start point is
+            # accepted: on every path that goes on to return a result it must
+            # have been strictly negative (coneprog_spec: start-point-interior)
+            st.ghost['start_ms'] = tuple(st.ghost.get('start_ms', ())) + ((
+                mat(st, x).f['unvalidated'], r.t, getattr(n, 'lineno', 0)),)
             mat(st, x).f['unvalidated'] = None
     return r
 
